@@ -664,8 +664,13 @@ func (w *worker[T, JobType]) Stop() error {
 	if cancel != nil {
 		defer cancel()
 	}
+
+	// Stopped from here on, before anything is torn down: a Resume or Pause arriving now no
+	// longer applies (it would otherwise leave the worker reporting Running or Paused with its
+	// channels closed until the end of this function).
+	w.status.Store(stopped)
+
 	defer func() {
-		w.status.Store(stopped)
 		// a WaitUntilFinished caller parked while the worker was still running (a concurrent
 		// Resume) waits for less now: let it look again, nobody else will
 		w.mx.Lock()
